@@ -296,6 +296,11 @@ func Run(p *Plan, ch simsync.Chooser) (out *Outcome) {
 			cache.Store(p.key(k), p.val("p"+fmt.Sprint(k)))
 		}
 	}
+	if p.Shape == "small" {
+		for k := 0; k < p.Prefill; k++ {
+			cache.Store(p.key(k), p.val("p"+fmt.Sprint(k)))
+		}
+	}
 	var shadow *valid.LRUCache
 	if p.Bystander > 0 && p.Shape == "seq" {
 		shadow = valid.NewLRU(2)
@@ -714,6 +719,18 @@ func stepModel(c int, cb bool, state string, op Op, o *Rec) (bool, string) {
 	return true, m.Encode()
 }
 
+// initialState: the model state the clients of a small history start from (empty, or the prefilled keys in the order stored).
+func initialState(p *Plan) string {
+	if p.Prefill <= 0 {
+		return ""
+	}
+	m := NewModel(p.Cap)
+	for k := 0; k < p.Prefill; k++ {
+		m.Store(k, "p"+fmt.Sprint(k))
+	}
+	return m.Encode()
+}
+
 func judgeSmall(p *Plan, out *Outcome) {
 	h := out.Hist
 	// probes and non-triviality
@@ -756,7 +773,7 @@ func judgeSmall(p *Plan, out *Outcome) {
 		return r.Invoke
 	}
 	sort.SliceStable(order, func(a, b int) bool { return pt(&h[order[a]]) < pt(&h[order[b]]) })
-	state := ""
+	state := initialState(p)
 	okAll := true
 	for _, i := range order {
 		ok, ns := stepModel(p.Cap, p.Callback, state, h[i].Op, &h[i])
@@ -772,7 +789,7 @@ func judgeSmall(p *Plan, out *Outcome) {
 	}
 	out.Probes.Add("lin_porcupine", 1)
 	model := porcupine.Model{
-		Init: func() interface{} { return "" },
+		Init: func() interface{} { return initialState(p) },
 		Step: func(st, in, o interface{}) (bool, interface{}) {
 			r := o.(*Rec)
 			ok, ns := stepModel(p.Cap, p.Callback, st.(string), r.Op, r)
@@ -812,7 +829,7 @@ func linSub(p *Plan, h []Rec) string {
 			continue
 		}
 		model := porcupine.Model{
-			Init: func() interface{} { return "" },
+			Init: func() interface{} { return initialState(p) },
 			Step: func(st, in, o interface{}) (bool, interface{}) {
 				r := o.(*Rec)
 				ok, ns := stepModel(p.Cap, p.Callback, st.(string), r.Op, r)
